@@ -220,6 +220,7 @@ class C02(runner.Check):
 					n=r.choice([1, 1, 2, 3]), rs=r.choice(seeds), thread=r.chance(0.15))
 				if kind == "mono" and op["rs"] < 0:
 					op["rs"] = -op["rs"]        # RandomState rejects negative seeds
+				op["seed_type"] = r.wchoice(["int", "numpy.int64", "numpy.int32"], [5, 1, 1])
 			elif kind in ("np_seed", "nb_seed", "torch_seed"):
 				op["v"] = r.randint(0, 10 ** 6)
 			elif kind == "threads":
@@ -408,7 +409,10 @@ class C02(runner.Check):
 					try:
 						if op.get("thread"):
 							repo.numba_seed(core.derive_seed(case.get("seed", 0), "thread", oi))
-						box["Y"] = fn(X, start=s, end=e, n=op["n"], random_state=op["rs"])
+						rs = op["rs"]
+						if op.get("seed_type", "int") != "int":
+							rs = getattr(numpy, op["seed_type"].split(".")[1])(rs)
+						box["Y"] = fn(X, start=s, end=e, n=op["n"], random_state=rs)
 					except BaseException as ex:
 						box["exc"] = ex
 				if op.get("thread"):
@@ -419,7 +423,8 @@ class C02(runner.Check):
 					call()
 				desc = "op %d %s(examples=%r, start=%d, end=%d, n=%d, random_state=%d%s)" % (
 					oi, "dinucleotide_shuffle" if kind == "dinuc" else "shuffle", op["ex"],
-					s, e, op["n"], op["rs"], ", other thread" if op.get("thread") else "")
+					s, e, op["n"], op["rs"], (" as %s" % op.get("seed_type", "int")) +
+					(", other thread" if op.get("thread") else ""))
 				key = (kind, tuple(op["ex"]), s, e, op["n"], op["rs"])
 				if "exc" in box:
 					ex = box["exc"]
